@@ -80,7 +80,7 @@ fn dst_of(st: &Step) -> Option<(u8, u16)> {
     match st {
         Step::Dec { g, dst, .. } | Step::Const { g, dst, .. } | Step::Bin { g, dst, .. } | Step::Neg { g, dst, .. } | Step::Dbl { g, dst, .. } | Step::Sum { g, dst, .. }
         | Step::Sel { g, dst, .. } | Step::Mul { g, dst, .. } | Step::MulBase { g, dst, .. } | Step::Table { g, dst, .. } | Step::Dbl2 { g, dst, .. } | Step::Msm { g, dst, .. }
-        | Step::Pre { g, dst, .. } | Step::Rand { g, dst, .. } => Some((*g, *dst)),
+        | Step::Pre { g, dst, .. } | Step::Rand { g, dst, .. } | Step::TUse { g, dst, .. } | Step::PUse { g, dst, .. } => Some((*g, *dst)),
         Step::Uni { dst, .. } | Step::FromEd { dst, .. } => Some((1, *dst)),
         Step::Cof { dst, .. } | Step::Clamp { dst, .. } | Step::Cofac { dst, .. } => Some((0, *dst)),
         Step::Zero { g, a } => Some((*g, *a)),
@@ -393,7 +393,7 @@ impl World {
                 set_dispatch(0);
                 set_e!(*dst, r);
             }
-            Step::Table { g, dst, a, radix: _, s } => {
+            Step::Table { g, dst, a, radix: _, s, .. } => {
                 let k = sc_real(s);
                 if *g == 0 {
                     let p = need_e!(*a);
